@@ -30,17 +30,18 @@ import (
 var dispDenoms = []string{"ceth", "cusdc", "rowan"}
 
 type dispEnv struct {
-	app     *sifapp.SifchainApp
-	ctx     sdk.Context
-	srv     disptypes.MsgServer
-	mod     sdk.AccAddress
-	users   []sdk.AccAddress // ordinary accounts
-	rcpts   []string         // recipient pool: users + blocked addresses
-	names   []string         // distribution names created so far
-	created map[string]sdk.Coins
-	paid    map[string]sdk.Coins
-	height  int64
-	out     *Out
+	app        *sifapp.SifchainApp
+	ctx        sdk.Context
+	srv        disptypes.MsgServer
+	mod        sdk.AccAddress
+	users      []sdk.AccAddress // ordinary accounts
+	rcpts      []string         // recipient pool: users + blocked addresses
+	names      []string         // distribution names created so far
+	created    map[string]sdk.Coins
+	paid       map[string]sdk.Coins
+	height     int64
+	out        *Out
+	pendingChk string // emitted by after(): the supply check of the last message
 }
 
 func coinsStr(c sdk.Coins) string {
@@ -129,6 +130,10 @@ func (e *dispEnv) balances(accts []string) map[string]sdk.Coins {
 
 // emit the observation and invariant lines that follow every operation
 func (e *dispEnv) after() {
+	if e.pendingChk != "" {
+		e.out.Emit(e.pendingChk, "true", "chk.txsupply", false)
+		e.pendingChk = ""
+	}
 	e.out.Emit("d.obs", e.obs(), "obs", false)
 	// balances of the module account and of a few accounts
 	accts := append([]string{e.mod.String(), disptypes.EcoPool}, e.rcpts...)
@@ -153,12 +158,25 @@ func (e *dispEnv) after() {
 }
 
 // deliver runs one message the way baseapp does: ValidateBasic, handler on a cache, write on success
-func (e *dispEnv) deliver(validate func() error, handle func(ctx sdk.Context) error) string {
+func (e *dispEnv) supplies() string {
+	var parts []string
+	for _, d := range dispDenoms {
+		parts = append(parts, e.app.BankKeeper.GetSupply(e.ctx, d).Amount.String())
+	}
+	return strings.Join(parts, ",")
+}
+
+func (e *dispEnv) deliver(validate func() error, handle func(ctx sdk.Context) error) (res string) {
+	before := e.supplies()
+	// C20: a message never creates coins — judged after the message, whatever its result
+	defer func() {
+		e.pendingChk = fmt.Sprintf("chk c20.txsupply tag=disp.msg.supply-unchanged %s %s", before, e.supplies())
+	}()
 	if err := validate(); err != nil {
 		return "err"
 	}
 	cctx, write := e.ctx.CacheContext()
-	res := protect(func() string {
+	res = protect(func() string {
 		if err := handle(cctx); err != nil {
 			return "err"
 		}
